@@ -83,4 +83,37 @@ def readFileFS (fs : FS) (name : Bytes) : Except Err Bytes :=
   | .dir _ _ => .ok []
   | .err e => .error e
 
+/-! ### Where the answers of the code depend on Go's map iteration order
+
+  `walkTo` finds the child of a directory by scanning a Go map. The scan is
+  deterministic exactly when no directory has two children with one base name
+  (members placed through a symbolic link under a second spelling make such
+  twins). Children only go away in the final cleanup, so a twin that exists at
+  any moment during `New` still exists when the member that made it has been
+  added. `ambDuring` says whether the state after some member (or the state in
+  which `add` failed) has a twin; if it never does, every scan during `New` met
+  at most one match and the outcome of the code cannot depend on map order. -/
+
+def hasDupBytes : List Bytes → Bool
+  | [] => false
+  | x :: xs => xs.contains x || hasDupBytes xs
+
+def FS.dupNames (fs : FS) : Bool :=
+  fs.inodes.any fun n =>
+    match n.children with
+    | some cs => hasDupBytes (cs.map fun c => baseOf (fs.ino c).name)
+    | none => false
+
+def ambDuring : FS → HL → List Member → Bool
+  | _, _, [] => false
+  | fs, hl, m :: ms =>
+    match prepMember fs m with
+    | none =>
+      let fs' := dirOverLink fs m
+      fs'.dupNames || ambDuring fs' hl ms
+    | some ino =>
+      match add addFuel fs hl ino.name ino true with
+      | (fs', hl', none) => fs'.dupNames || ambDuring fs' hl' ms
+      | (fs', _, some _) => fs'.dupNames
+
 end ClairModel.TarFS
